@@ -98,7 +98,7 @@ theorem lincode_column_missing_refused (pp : Params F D) (point : Point F) (c : 
     (hc : π.opening.columns[j]? = none) :
     ∃ e, checkOne pp point c value π o = .error e := by
   apply checkOne_error_of_not_pre
-  rintro a ⟨_, _, _, w, b, _, _, hcols, _⟩
+  rintro a ⟨_, _, _, w, b, _, _, _, hcols, _⟩
   obtain ⟨col, x, hc', _⟩ := hcols j q hq
   rw [hc] at hc'; cases hc'
 
@@ -110,7 +110,7 @@ theorem lincode_column_mismatch_refused (pp : Params F D) (point : Point F) (c :
     (hx : w[q]? = some x) (hne : dot b col ≠ x) :
     ∃ e, checkOne pp point c value π o = .error e := by
   apply checkOne_error_of_not_pre
-  rintro a' ⟨_, _, _, w', b', hw', ht', hcols, _⟩
+  rintro a' ⟨_, _, _, w', b', hw', _, ht', hcols, _⟩
   rw [hw] at hw'; cases hw'
   rw [ht] at ht'; cases ht'
   obtain ⟨col', x', hc', hx', hd⟩ := hcols j q hq
@@ -126,7 +126,7 @@ theorem lincode_wf_column_mismatch_refused (pp : Params F D) (point : Point F) (
     (hy : ww[q]? = some y) (hne : dot o.r col ≠ y) :
     ∃ e, checkOne pp point c value π o = .error e := by
   apply checkOne_error_of_not_pre
-  rintro a' ⟨_, _, _, w', b', _, _, _, hwfc⟩
+  rintro a' ⟨_, _, _, w', b', _, _, _, _, hwfc⟩
   obtain ⟨wf', ww', h1, h2, h3⟩ := hwfc hflag
   rw [hwf] at h1; cases h1
   rw [hw] at h2; cases h2
@@ -141,10 +141,23 @@ theorem lincode_position_out_of_range_refused (pp : Params F D) (point : Point F
     (hq : o.indices[j]? = some q) (hw : pp.enc π.opening.v = .ok w) (hx : w[q]? = none) :
     ∃ e, checkOne pp point c value π o = .error e := by
   apply checkOne_error_of_not_pre
-  rintro a' ⟨_, _, _, w', b', hw', _, hcols, _⟩
+  rintro a' ⟨_, _, _, w', b', hw', _, _, hcols, _⟩
   rw [hw] at hw'; cases hw'
   obtain ⟨col', x', _, hx', _⟩ := hcols j q hq
   rw [hx] at hx'; cases hx'
+
+/-- **Tampered metadata**: the codeword length `n_ext_cols` announced by the commitment fixes how
+many columns are opened and where; if it is not the length of `E(v)` the verifier refuses — so a
+commitment that publishes the honest root with a smaller `n_ext_cols` (opened at a prefix of the
+positions only, where `v + δ·(X−1)(X−ω)` encodes like `v`) opens to nothing. -/
+theorem lincode_ext_cols_mismatch_refused (pp : Params F D) (point : Point F) (c : Comm D)
+    (value : F) (π : Proof F D) (o : Oracle F) (w : List F)
+    (hw : pp.enc π.opening.v = .ok w) (hne : w.length ≠ c.nExtCols) :
+    ∃ e, checkOne pp point c value π o = .error e := by
+  apply checkOne_error_of_not_pre
+  rintro a' ⟨_, _, _, w', b', hw', hl, _⟩
+  rw [hw] at hw'; cases hw'
+  exact hne hl
 
 /-- the encoder refuses `v` (Brakedown, wrong length) ⇒ `check` refuses -/
 theorem lincode_encode_refused (pp : Params F D) (point : Point F) (c : Comm D) (value : F)
@@ -185,5 +198,13 @@ example : toyRunWith true (.uni 5) [1, 2, 3] ⟨[7, 9], [2, 0, 3]⟩ (evalPoly [
     = .error .abort := by decide
 example : toyRunWith true (.uni 5) [1, 2, 3] ⟨[7, 9], [2, 0, 3]⟩ (evalPoly [1, 2, 3] 5) id
     = .ok true := by decide
+/-- the honest toy proof against the honest root published with `n_ext_cols = 2` (positions 0, 1) -/
+example : (match commit (toyPP true) [1, 2, 3] with
+    | .ok (c, st) =>
+      match openOne (toyPP true) (.uni 5) c st ⟨[7, 9], [1, 0]⟩ with
+      | .ok π => checkOne (toyPP true) (.uni 5) { c with nExtCols := 2 } (evalPoly [1, 2, 3] 5) π
+          ⟨[7, 9], [1, 0]⟩
+      | .error e => .error e
+    | .error e => .error e) = .error .invalidCommitment := by decide
 
 end PCV.C03
